@@ -129,6 +129,9 @@ VALUES = {
   "special.none": sp.SpecialValues.none,
   "num.half": 0.5,
   "num.int2": 2,
+  "num.int1": 1,          # equal to True, but not a boolean
+  "num.zero": 0,          # equal to False, but not a boolean
+  "num.one-float": 1.0,
   "multirowalign.center": sp.MultiRowAlignType.center,
   "overflow.visible": sp.OverflowType.visible,
   "origin.pct": sp.CoordinateType(x=_L(10, _U.pct), y=_L(20, _U.pct)),
